@@ -234,6 +234,33 @@ Definition cr_i32 (be : bool) : rdr Z := r_i32 E_NED be.
 Definition cr_u32 (be : bool) : rdr Z := r_u32 E_NED be.
 Definition cr_bool (be : bool) : rdr bool := cdr_r_bool.
 
+(* ------------------------------------------------------------------ well-formed values
+   (what the Rust types guarantee: integer ranges, array lengths, enum variants, Strings are
+   UTF-8, Vec/String lengths fit the u32 length prefix) *)
+Definition wf_key (k : bytes) : Prop := blen k = 16.
+Definition wf_string (s : bytes) : Prop := utf8_valid s = true /\ blen s + 1 <= u32_max.
+Definition wf_octets (b : bytes) : Prop := blen b <= u32_max.
+Definition wf_durkind (d : durkind) : Prop :=
+  match d with
+  | Finite s n => in_i32 s /\ in_u32 n /\ ~ (s = DURATION_INFINITE_SEC /\ n = DURATION_INFINITE_NSEC)
+  | Infinite => True
+  end.
+Definition wf_length (l : length_t) : Prop := match l with Unlimited => True | Limited n => in_i32 n end.
+Definition wf_hist (h : histkind) : Prop := match h with KeepLast d => in_u32 d | KeepAll => True end.
+Definition wf_pres (p : presentation) : Prop := 0 <= pr_scope p <= 1.
+Definition wf_liv (l : liveliness) : Prop := 0 <= lv_kind l <= 2 /\ wf_durkind (lv_lease l).
+Definition wf_rel (r : reliability) : Prop := 1 <= rl_kind r <= 2 /\ wf_durkind (rl_mbt r).
+Definition wf_res (r : reslimits) : Prop := wf_length (rs_ms r) /\ wf_length (rs_mi r) /\ wf_length (rs_mspi r).
+Definition wf_tce (t : tce) : Prop := 0 <= tc_kind t <= 1.
+Definition wf_loc (l : locator) : Prop := in_i32 (lc_kind l) /\ in_u32 (lc_port l) /\ blen (lc_addr l) = 16.
+Definition wf_partition (l : list bytes) : Prop := Forall wf_string l /\ Z.of_nat (length l) <= u32_max.
+Definition wf_datarep (l : list Z) : Prop := Forall (fun x => 0 <= x <= 65535) l /\ Z.of_nat (length l) <= u32_max.
+(* Length::Limited(i32::MAX) is indistinguishable from Unlimited on the wire (finding C13-length-limited-max) *)
+Definition is_limited_max (l : length_t) : bool :=
+  match l with Limited n => n =? LENGTH_UNLIMITED | Unlimited => false end.
+Definition res_limited_max (r : reslimits) : bool :=
+  is_limited_max (rs_ms r) || is_limited_max (rs_mi r) || is_limited_max (rs_mspi r).
+
 (* emission helpers *)
 Definition always (w : wr) : list wr := [w].
 Definition unless (skip : bool) (w : wr) : list wr := if skip then [] else [w].
@@ -303,6 +330,13 @@ Definition topic_unbuild (r : topic) : tuple_of topic_rtable :=
   (t_latency_budget r, (t_liveliness r, (t_reliability r, (t_transport_priority r, (t_lifespan r,
   (t_destination_order r, (t_history r, (t_resource_limits r, (t_ownership r, (t_topic_data r,
   (t_representation r, tt))))))))))))))))).
+Definition wf_topic (r : topic) : Prop :=
+  wf_key (t_key r) /\ wf_string (t_name r) /\ wf_string (t_type_name r)
+  /\ 0 <= t_durability r <= 3 /\ wf_durkind (t_deadline r) /\ wf_durkind (t_latency_budget r)
+  /\ wf_liv (t_liveliness r) /\ wf_rel (t_reliability r) /\ in_i32 (t_transport_priority r)
+  /\ wf_durkind (t_lifespan r) /\ 0 <= t_destination_order r <= 1 /\ wf_hist (t_history r)
+  /\ wf_res (t_resource_limits r) /\ 0 <= t_ownership r <= 1 /\ wf_octets (t_topic_data r)
+  /\ wf_datarep (t_representation r).
 Definition topic_into_bytes (r : topic) : bytes := tbl_into_bytes topic_wtable r.
 Definition topic_from_bytes (d : bytes) : res topic := tbl_from_bytes topic_rtable topic_build d.
 
@@ -379,6 +413,18 @@ Definition dwriter_unbuild (r : dwriter) : tuple_of dwriter_rtable :=
   (w_lifespan r, (w_user_data r, (w_ownership r, (w_ownership_strength r, (w_destination_order r,
   (w_presentation r, (w_partition r, (w_topic_data r, (w_group_data r, (w_representation r,
   (w_remote_group_entity_id r, (w_unicast_locator_list r, (w_multicast_locator_list r, tt))))))))))))))))))))))).
+Definition wf_dwriter (r : dwriter) : Prop :=
+  wf_key (w_key r) /\ wf_key (w_participant_key r) /\ wf_string (w_topic_name r) /\ wf_string (w_type_name r)
+  /\ 0 <= w_durability r <= 3 /\ wf_durkind (w_deadline r) /\ wf_durkind (w_latency_budget r)
+  /\ wf_liv (w_liveliness r) /\ wf_rel (w_reliability r) /\ wf_durkind (w_lifespan r)
+  /\ wf_octets (w_user_data r) /\ 0 <= w_ownership r <= 1 /\ in_i32 (w_ownership_strength r)
+  /\ 0 <= w_destination_order r <= 1 /\ wf_pres (w_presentation r) /\ wf_partition (w_partition r)
+  /\ wf_octets (w_topic_data r) /\ wf_octets (w_group_data r) /\ wf_datarep (w_representation r)
+  /\ blen (w_remote_group_entity_id r) = 4
+  /\ Forall wf_loc (w_unicast_locator_list r) /\ Forall wf_loc (w_multicast_locator_list r)
+  (* the redundant copy of the key: WriterProxy.remote_writer_guid is not transmitted, the
+     reader rebuilds it from the key *)
+  /\ w_remote_writer_guid r = w_key r.
 Definition dwriter_into_bytes (r : dwriter) : bytes := tbl_into_bytes dwriter_wtable r.
 Definition dwriter_from_bytes (d : bytes) : res dwriter := tbl_from_bytes dwriter_rtable dwriter_build d.
 
@@ -458,6 +504,16 @@ Definition dreader_unbuild (r : dreader) : tuple_of dreader_rtable :=
   (d_partition r, (d_topic_data r, (d_group_data r, (d_representation r, (d_type_consistency r,
   (d_remote_group_entity_id r, (d_unicast_locator_list r, (d_multicast_locator_list r,
   (d_expects_inline_qos r, tt)))))))))))))))))))))))).
+Definition wf_dreader (r : dreader) : Prop :=
+  wf_key (d_key r) /\ wf_key (d_participant_key r) /\ wf_string (d_topic_name r) /\ wf_string (d_type_name r)
+  /\ 0 <= d_durability r <= 3 /\ wf_durkind (d_deadline r) /\ wf_durkind (d_latency_budget r)
+  /\ wf_liv (d_liveliness r) /\ wf_rel (d_reliability r) /\ 0 <= d_ownership r <= 1
+  /\ 0 <= d_destination_order r <= 1 /\ wf_octets (d_user_data r) /\ wf_durkind (d_time_based_filter r)
+  /\ wf_pres (d_presentation r) /\ wf_partition (d_partition r)
+  /\ wf_octets (d_topic_data r) /\ wf_octets (d_group_data r) /\ wf_datarep (d_representation r)
+  /\ wf_tce (d_type_consistency r) /\ blen (d_remote_group_entity_id r) = 4
+  /\ Forall wf_loc (d_unicast_locator_list r) /\ Forall wf_loc (d_multicast_locator_list r)
+  /\ d_remote_reader_guid r = d_key r.
 Definition dreader_into_bytes (r : dreader) : bytes := tbl_into_bytes dreader_wtable r.
 Definition dreader_from_bytes (d : bytes) : res dreader := tbl_from_bytes dreader_rtable dreader_build d.
 
@@ -521,6 +577,17 @@ Definition participant_unbuild (r : participant) : tuple_of participant_rtable :
   (p_expects_inline_qos r, (p_metatraffic_unicast r, (p_metatraffic_multicast r, (p_default_unicast r,
   (p_default_multicast r, (p_available_builtin_endpoints r, (p_manual_liveliness_count r,
   (p_builtin_endpoint_qos r, (p_lease_duration r, tt))))))))))))))).
+Definition wf_participant (r : participant) : Prop :=
+  wf_key (p_key r) /\ wf_octets (p_user_data r)
+  /\ match p_domain_id r with Some i => in_i32 i | None => True end
+  /\ wf_string (p_domain_tag r) /\ blen (p_protocol_version r) = 2 /\ blen (p_vendor_id r) = 2
+  /\ Forall wf_loc (p_metatraffic_unicast r) /\ Forall wf_loc (p_metatraffic_multicast r)
+  /\ Forall wf_loc (p_default_unicast r) /\ Forall wf_loc (p_default_multicast r)
+  /\ in_u32 (p_available_builtin_endpoints r) /\ in_i32 (p_manual_liveliness_count r)
+  /\ in_u32 (p_builtin_endpoint_qos r)
+  /\ in_i32 (fst (p_lease_duration r)) /\ in_u32 (snd (p_lease_duration r))
+  (* not transmitted: guid_prefix is rebuilt from the key, discovered_participant_list is dropped *)
+  /\ p_guid_prefix r = firstn 12 (p_key r) /\ p_discovered_participant_list r = [].
 Definition participant_into_bytes (r : participant) : bytes := tbl_into_bytes participant_wtable r.
 Definition participant_from_bytes (d : bytes) : res participant :=
   tbl_from_bytes participant_rtable participant_build d.
